@@ -86,6 +86,19 @@ theorem bqm_document_roundtrip (labels : List PV) (b : BQMIdx) (order : List Nat
     (bqmFromSer (bqmToSer labels b order py)).2 = fromVectors (toVectors b order py) :=
   bqmdoc_roundtrip labels b order py hl hlen hperm
 
+/-- the bytes payload (`use_bytes=True`): `np.frombuffer(arr.tobytes(), dtype)` is the array, for bool and every
+    signed / unsigned integer dtype (two's complement, little endian, any item size) — this is also the path of
+    bit-packed samples (uint32 words) -/
+theorem bytes_payload_roundtrip_int (t : IntType) (data : List Int) (h : ∀ z ∈ data, t.holds z) :
+    frombufferInt t (tobytesInt t data) data.length = data :=
+  bytes_roundtrip_int t data h
+
+/-- … and for floating dtypes under the stated IEEE contract (decoding inverts encoding on representable values;
+    every item occupies `size` bytes): the chunking of the buffer is what is proved -/
+theorem bytes_payload_roundtrip_float (c : FloatCodec) (data : List Rat) (h : ∀ q ∈ data, c.representable q) :
+    frombufferFloat c (tobytesFloat c data) data.length = data :=
+  bytes_roundtrip_float c data h
+
 /-- COO text: loading the written lines gives, for every label, the printed linear bias if it was
     non-zero and nothing otherwise; for every pair the printed interaction.  Partial: biases are carried
     in millionths (the precision of `%f`), `%f`/`float()` and the line regex are trusted, the offset and
@@ -121,6 +134,8 @@ example : deserVar (jsonRT (serVar (.tup [.str "a", .tup [.int 1, .int 2]]))) = 
 
 /-! ## non-vacuity -/
 
+example : tobytesInt ⟨2, true⟩ [-2, 258] = [254, 255, 2, 1] := by decide
+example : frombufferInt ⟨2, true⟩ [254, 255, 2, 1] 2 = [-2, 258] := by decide
 example : packRow [true, false, true] = [5] := by decide
 example : packRow (List.replicate 33 true) = [4294967295, 1] := by decide
 example : (packSamples [[], []] 0).shape = (2, 0) := by decide
